@@ -92,7 +92,11 @@ def install(eng):
                  "DepOK(target)", "forall(lambda u: implies(old(DepOK(u)), DepOK(u)), Target)",
                  "forall(lambda u: implies(u.name != target.name, BNow(u) == old(BNow(u))), Target)",
                  "forall(lambda u, h: implies(u.name != target.name, Changed(h, u) == old(Changed(h, u))), "
-                 "Target, Hashes)"],
+                 "Target, Hashes)",
+                 # C05: a callback that does not submit (status, dry run) changes nothing at all
+                 "implies(dry_mode, sched_accepted == old(sched_accepted))",
+                 "implies(dry_mode, forall(lambda u: BNow(u) == old(BNow(u)), Target))",
+                 "implies(dry_mode, forall(lambda u, h: Changed(h, u) == old(Changed(h, u)), Target, Hashes))"],
         raises={"Exception": {"cond": "True", "modifies": []}},   # a rejected submission changes nothing
         note="interface of the submit callback; the three real callbacks are checked against it")
 
@@ -104,10 +108,13 @@ def install(eng):
         # acyclic: the cycle check's finishing times strictly decrease along dependencies (C04)
         "forall(lambda u, d: implies(d in deps0(u), 0 <= fin[d] and fin[d] < fin[u]), Target, Target)",
         # every input is an existing file or an output of a direct dependency (Graph invariant, C04)
-        "forall(lambda u, p: implies(p in Ins(u), fs_exists(fs, p) or any(p in Outs(a) for a in deps0(u))), Target, Path)",
+        "forall(lambda u, p: implies(InT(u) and p in Ins(u), fs_exists(fs, p) or any(p in Outs(a) for a in deps0(u))), Target, Path)",
         "forall(lambda u, p: implies(not stale0(u) and p in Outs(u), fs_exists(fs, p)), Target, Path)",
     ]
     LOGINV = [
+        "implies(dry_mode, sched_accepted == acc0)",
+        "implies(dry_mode, forall(lambda u: BNow(u) == bstat0(u), Target))",
+        "implies(dry_mode, forall(lambda u, h: Changed(h, u) == chg0(h, u), Target, Hashes))",
         "log_n >= 0",
         "all(Needs(SpecF(u)) and X(u) for u in log_pos)",
         "all(0 <= log_pos[u] and log_pos[u] < log_n for u in log_pos)",
@@ -176,11 +183,15 @@ def install(eng):
         params={"endpoints": vc.TargetSet, "graph": vc.Graph, "fs": vc.Fs, "spec_hashes": vc.Hashes,
                 "status_func": FnRef("iface:status_func"), "submit_func": FnRef("iface:submit_func")},
         returns=CacheT, locals={"cache": CacheT},
-        requires=STATIC + [
-            "dom(log_pos) == NoTargets", "log_n == 0",
-            "all(X(e) and InT(e) for e in endpoints)",
-            # the oracle's inputs are the state at the start of the run
-            "forall(lambda u: implies(InT(u), BNow(u) == bstat0(u) and Stale(u, fs, spec_hashes) == stale0(u)), Target)"],
+        requires=[r for r in STATIC if "stale0" not in r] + [
+            "dom(log_pos) == NoTargets", "log_n == 0", "all(InT(e) for e in endpoints)"],
+        # definitions: the oracle's inputs are the state at the start of the run; X is an ARBITRARY set that
+        # contains the endpoints and is closed under dependencies (axiom group `cone`)
+        defines=["bstat0", "stale0", "SpecF", "X", "chg0", "acc0"],
+        entry_assume=[
+            "forall(lambda u: BNow(u) == bstat0(u) and Stale(u, fs, spec_hashes) == stale0(u), Target)",
+            "forall(lambda u, h: Changed(h, u) == chg0(h, u), Target, Hashes)", "sched_accepted == acc0",
+            "all(X(e) for e in endpoints)"],
         modifies=["Graph.dependencies"] + GHOSTS,
         ensures=[
             # C02 "iff it lies in the dependency cone": result keys are closed, contain the endpoints, and lie in
